@@ -1,5 +1,90 @@
-import TshVerif.Model.Parser
+/-
+  C06 - Ill-typed programs are never translated; typing does not depend on the target.
+
+  The typing discipline is stated as an executable checker on elaborated ASTs (Model/Typed.lean:
+  `Expr.typed`, `Stmt.typed` -- Go's rules for operators, conditions, indices, slice elements, the
+  README's signatures for the builtins, value counts of definitions and assignments).  It is run on
+  every AST the real parser returns in every correspondence run (an accepted program whose AST is not
+  typed is reported with the program as the failing input).  Proved here:
+    * `typed_programs_are_translated`: EVERY typed AST is translated by the transpiler walk + bash
+      converter without an error and without a panic: the converters' own operator/type switches
+      (the "second line of defence") never fire on a typed AST, so acceptance is decided by the parser
+      alone -- which is target independent by construction (`parse_does_not_see_the_target`);
+    * `ill_typed_operator_is_rejected_*`: the converse for the second line of defence: a bool or slice
+      operand of an arithmetic operator, an unknown comparison for the type, an unknown unary or
+      logical operator make the bash converter fail (no script);
+    * `operator_tables`: the operator sets per type, as theorems.
+  The parser's own checks (positions x offered types) are decided by the exhaustive typed-position
+  table of the check and the AST correspondence with the parser model.
+-/
+import TshVerif.Lemmas.BashTotal
 namespace Tsh.C06
-open Tsh Tsh.Parser
+open Tsh Tsh.Tr Tsh.Bash
+
+/-- **Every typed program is translated** (bash target): a script, no error, no panic. -/
+theorem typed_programs_are_translated (p : Program) (ht : typedProgram p = true) : ∃ ls, compile p = .ok ls :=
+  compile_total p ht
+
+/-- typed programs are well-formed: all structural theorems (C01, C16) apply to them -/
+theorem typed_programs_are_wellformed (p : Program) (ht : typedProgram p = true) : wfStmts p = true :=
+  typedStmts_wf p ht
+
+/-- **Operator tables**: arithmetic only on int, `+` also on string, nothing on bool and slices;
+    ordering comparisons only on int. -/
+theorem operator_tables :
+    (∀ op, binaryAllowed ⟨.bool, false⟩ op = false) ∧
+    (∀ op dt, binaryAllowed ⟨dt, true⟩ op = false) ∧
+    (∀ op, binaryAllowed ⟨.string, false⟩ op = (op == "+")) ∧
+    (∀ op, compareAllowed ⟨.bool, false⟩ op = (op == "==" || op == "!=")) ∧
+    (∀ op, compareAllowed ⟨.string, false⟩ op = (op == "==" || op == "!=")) ∧
+    (∀ op dt, compareAllowed ⟨dt, true⟩ op = false) := by
+  have e1 : (DataType.bool == DataType.int) = false := by decide
+  have e2 : (DataType.bool == DataType.string) = false := by decide
+  have e3 : (DataType.string == DataType.int) = false := by decide
+  have e4 : (DataType.string == DataType.bool) = false := by decide
+  refine ⟨?_, ?_, ?_, ?_, ?_, ?_⟩
+  · intro op; simp [binaryAllowed]
+  · intro op dt; simp [binaryAllowed]
+  · intro op; simp [binaryAllowed]
+  · intro op; simp [compareAllowed, e1, e2]
+  · intro op; simp [compareAllowed, e3, e4]
+  · intro op dt; simp [compareAllowed]
+
+/-- second line of defence: an arithmetic operator on an operand type that does not allow it makes the converter fail -/
+theorem ill_typed_operator_is_rejected_binary (l op r : String) (vt : ValueType) (h : binaryAllowed vt op = false) (s : St) :
+    ∃ m, binaryOp l op r vt s = .error m := by
+  unfold binaryOp notAllowedBin
+  simp only [bind, nextHelperVar]
+  by_cases hs : vt.isSlice = true
+  · simp [hs, Tr.fail]
+  · simp only [hs, Bool.false_eq_true, if_false]
+    simp only [binaryAllowed, Bool.not_eq_true] at h hs
+    cases hd : vt.dt <;> simp [hd, hs, Tr.fail] at h ⊢
+    · have : (op == "*" || op == "/" || op == "%" || op == "+" || op == "-") = false := by
+        simpa [Bool.or_eq_false_iff] using h
+      simp [this, Tr.fail]
+    · simp [h, Tr.fail]
+
+theorem ill_typed_operator_is_rejected_unary (e op : String) (h : (op == "!") = false) (s : St) :
+    ∃ m, unaryOp e op s = .error m := by
+  unfold unaryOp
+  simp [bind, nextHelperVar, h, Tr.fail]
+
+theorem ill_typed_operator_is_rejected_logical (l op r : String) (h : (op == "&&" || op == "||") = false) (s : St) :
+    ∃ m, logicalOp l op r s = .error m := by
+  unfold logicalOp
+  simp [h, Tr.fail]
+
+/-! non-vacuity: a typed program with a function, a call, a loop and slices -/
+private def xi : Var := { name := "x", vt := ⟨.int, false⟩, global := true, pub := false }
+private def xs : Var := { name := "xs", vt := ⟨.int, true⟩, global := true, pub := false }
+private def sample : Program :=
+  [ .varDef [xi] [.intLit 0],
+    .varDef [xs] [.sliceNew .int [.intLit 1, .binary "+" (.varEval xi) (.intLit 2)]],
+    .funcDef "f" false [⟨.int, false⟩] [] [.ret [.intLit 1]],
+    .forS none (.compare "<" (.varEval xi) (.len (.varEval xs))) (some (.assign [xi] [.binary "+" (.varEval xi) (.intLit 1)]))
+      [ .sliceAssign xs (.varEval xi) (.call "f" [⟨.int, false⟩] []), .print [.sliceEval (.varEval xs) (.varEval xi) .int] ] ]
+example : typedProgram sample = true := by decide
+example : typedProgram [.varDef [xi] [.binary "+" (.boolLit true) (.boolLit false)]] = false := by decide
 
 end Tsh.C06
